@@ -103,7 +103,27 @@ def check_deep(case, acc):
     acc.tag("deep_chain_cases")
 
 
+def check_locked(case, acc):
+    """A validating class that refuses through the public `parent` attribute (a property override) instead of a hook:
+    whatever structural call is made on the locked forest, if it raises, nothing has changed."""
+    rec, universe = mut.make_universe("LockNM", case["state"], "parent")
+    pre = mut.snapshot(universe, rec.labels)
+    mut.LOCKED[0] = True
+    try:
+        exc = mut.execute(universe, case["op"])
+    finally:
+        mut.LOCKED[0] = False
+    post = mut.snapshot(universe, rec.labels)
+    if exc is not None and post != pre:
+        raise Violation("not-untouched", "%s on the locked forest %s raised %s, yet the forest is now %s" % (case["op"], pre, type(exc).__name__, post))
+    acc.nontrivial(exc is not None and any(kids for _, kids in pre))
+    acc.tag("calls_on_a_locked_forest")
+    acc.tag("calls_on_a_locked_forest_refused", exc is not None)
+
+
 def check_case(case, acc):
+    if case.get("kind") == "locked":
+        return check_locked(case, acc)
     if case.get("kind") == "deep":
         return check_deep(case, acc)
     family = mut.family_of(case["cls"])
@@ -143,6 +163,8 @@ def plan(tier, seed):
                 tasks.append({"engine": "enum", "n": n, "spec": spec, "index": i, "count": shards, "pairs": n <= 3, "maxlen": None if n <= 3 else 3})
     for cls in ("Node", "PlainNM", "SlotLM"):
         tasks.append({"engine": "deep", "cls": cls})
+    for n in (2, 3) if tier == "quick" else (2, 3, 4):
+        tasks.append({"engine": "locked", "n": n})
     examples = 100 if tier == "quick" else 500
     for i in range(nshards):
         tasks.append({"engine": "hyp", "examples": examples, "seed": seed * 1000 + i})
@@ -158,6 +180,9 @@ def _no_bad_for_lm(cases, family):
 
 
 def run_task(task, acc):
+    if task["engine"] == "locked":
+        cases = ({"kind": "locked", "state": state, "op": op} for state, route in mut.enum_states(task["n"], 0, 1) if route == "parent" for op in mut.calls_for(task["n"], "NM", invalid=False, maxlen=min(task["n"], 3)))
+        return acc.run_enum(check_case, cases)
     if task["engine"] == "deep":
         case = {"kind": "deep", "cls": task["cls"]}
         exc = acc.evaluate(check_case, case, enumerated=False)
